@@ -22,6 +22,12 @@ SIG_SAME_DIR = 'same-directory-resume-not-refused'
 SIG_REFUSED_MAILS = 'refused-resume-reports-and-mails-again'
 SIG_SKIP_END = 'skipped-end-still-hooked-and-reached'
 SIG_SKIP_END_PAR = 'skipped-end-exit-trap-while-parallel-step-runs'
+# deviations found by the boundary classes of orch_e2e.gen_boundary (write-ups findings/C04_odd_step_names.md, findings/C11_log_name_too_long.md)
+SIG_NAME_BLANK = 'step-name-with-white-space-never-runs'
+SIG_NAME_COMMA_PAR = 'parallel-step-with-comma-in-name-silently-dropped'
+SIG_SKIP_WORD = 'skip-name-matching-several-steps-aborts'
+SIG_LOG_NAME_MAX = 'log-name-exceeds-name-max'
+SIG_NAME_DASH = 'step-name-with-leading-dash-cannot-run'
 
 
 def case_key(case):
@@ -35,16 +41,18 @@ def evaluate(ctx, cases, res, want_account):
     with ThreadPoolExecutor(6) as ex:
         obs = list(ex.map(lambda c: orch_e2e.run_case(ctx, impl, drv, c), cases))
 
-    def late(ob):
+    def late(ob, case):
         # nothing wrong was seen, something expected was not seen in time: the invocation did not finish, or canvas had
         # started only a prefix of what the model starts when the wait ran out (a loaded machine does that too)
         if ob.get('hung') or ob.get('setup_failed'):
             return True
+        if case.get('free'):
+            return False          # a free-running invocation ended by itself: what it started is all it starts
         r = ob['rounds'][-1] if ob.get('rounds') else None
         return bool(r and r['model_starts'] != r['impl_starts'] and r['model_starts'][:len(r['impl_starts'])] == r['impl_starts'])
     retried = 0
     for i, ob in enumerate(obs):
-        if late(ob) and retried < 4:
+        if late(ob, cases[i]) and retried < 4:
             # repeated alone with four times the waiting time: a real hang or a step that never starts shows again.  At most four
             # cases are repeated (on the unchanged tree a late case is rare; a changed loop that hangs would otherwise keep
             # the check busy for an hour) - the others are judged as they were observed
@@ -82,11 +90,56 @@ def judge_second(res, case, sec):
         res.oracle_failures.append({'case': case, 'signature': sig, 'what': json.dumps(sec)})
 
 
+def name_deviation(case, ob, bad):
+    """the input classes in which the code is known NOT to do what the model (names = opaque byte strings) predicts, each
+    recognised by a predicate on the CASE and on the OBSERVATION; -> (signature, text) or None.  Everything else about
+    such a case is judged as always."""
+    if not bad:
+        return None
+    names = [s['name'] for s in case['steps']]
+    live = [s for s in case['steps'] if s['name'] not in case['skip']]
+    missing = [n for n in bad['model_starts'] if n not in bad['impl_starts']]
+    extra = [n for n in bad['impl_starts'] if n not in bad['model_starts']]
+    rows = ob.get('rows', [])
+    amb = orch_e2e.skip_ambiguous(case)
+    if amb and not bad['impl_starts'] and ob.get('rc') not in (0, None) and not ob.get('builddirs'):      # (not detached: the skip records are written before the shell detaches)
+        return SIG_SKIP_WORD, ('skip { %s } with steps %s: step_id finds the name as a word in the line of more than one step, the skip record cannot '
+                               'be written, canvas exits %s before the first step and removes the build directory: %r' % (amb, names, ob.get('rc'), (ob.get('out') or '')[-200:]))
+    white = [s['name'] for s in live if any(c in s['name'] for c in ' \t\n')]
+    if white and not extra and missing and set(missing) <= set(white) and all(s['exit'] == 0 for s in case['steps']):
+        return SIG_NAME_BLANK, ('steps %s: the listing line of %s is read back word by word; the step is never started (a record and a hook call for its first word '
+                                'appear instead: %s), the invocation goes on and exits %s' % (names, missing, [(r['step'], r['name'], r['exit']) for r in rows], ob.get('rc')))
+    dash = [s['name'] for s in live if s['name'].startswith('-')]
+    if dash and not extra and missing and missing[0] in dash and any(r['name'] == missing[0] and r['exit'] not in ('0', '-1') for r in rows) \
+            and all(s['exit'] == 0 for s in case['steps']):
+        return SIG_NAME_DASH, ('steps %s: robsd-exec takes the name %s for an option (usage error): the command of the step never runs, the step is recorded as FAILED '
+                               '(%s); the invocation exits %s' % (names, missing[0], [(r['step'], r['name'], r['exit']) for r in rows], ob.get('rc')))
+    comma = [s['name'] for s in live if ',' in s['name'] and s['parallel']]
+    if comma and not extra and missing and set(missing) <= set(comma) and not any(r['name'] in comma for r in rows):
+        return SIG_NAME_COMMA_PAR, ('steps %s: the first record of the parallel step %s is refused by robsd-step (comma in the value), its background job ends there '
+                                    'unseen: the step never starts, has no record, the invocation goes on and exits %s' % (names, missing, ob.get('rc')))
+    return None
+
+
+def comma_fail_stop(case, ob, bad):
+    """a SYNCHRONOUS step whose name holds a comma: robsd-step -W refuses its first record (repair bda6bfa of C01), set -e ends
+    the invocation there.  True when exactly that was seen: nothing from that step on started, status non-zero, no end record."""
+    live = [s for s in case['steps'] if s['name'] not in case['skip']]
+    first = next((s for s in live if ',' in s['name']), None)
+    if not bad or first is None or first['parallel'] or first['name'] not in bad['model_starts']:
+        return False
+    k = bad['model_starts'].index(first['name'])
+    return (bad['impl_starts'] == bad['model_starts'][:k] and (case['detached'] or ob.get('rc') not in (0, None))
+            and not any(r['name'] in ('end', first['name']) for r in ob.get('rows', [])))
+
+
 def judge(ctx, drv, res, case, ob, want_account):
     key = case_key(case)
     if ob.get('setup_failed'):
         res.tie_errors.append('end-to-end lane: %s (case %s)' % (ob['setup_failed'], json.dumps(case)[:200]))
         return
+    for c in orch_e2e.classes_of(case):
+        res.count('class: ' + c)
     npar = sum(1 for s in case['steps'] if s['parallel'] and s['name'] not in case['skip'])
     nsync = sum(1 for s in case['steps'] if not s['parallel'] and s['name'] not in case['skip'])
     res.count('ncpu=%d' % case['ncpu'])
@@ -101,6 +154,18 @@ def judge(ctx, drv, res, case, ob, want_account):
         res.disagreements.append({'case': case, 'why': 'model error' if ob.get('model_error') else 'invocation hung', 'out': ob.get('out')})
         return
     bad = next((r for r in ob['rounds'] if r['model_starts'] != r['impl_starts']), None)
+    dev = name_deviation(case, ob, bad)
+    if dev:
+        # the oracle failure stands for the disagreement of this round: same fact, with the class named
+        res.evaluations += 1
+        res.oracle_failures.append({'case': case, 'signature': dev[0], 'what': dev[1]})
+        return
+    if comma_fail_stop(case, ob, bad):
+        res.evaluations += 1
+        res.count('names: comma in a synchronous step - its record is refused, the invocation stops there (fail-stop seen)')
+        return
+    if ob.get('expect_dir') and ob.get('builddirs') != [ob['expect_dir']] and not ob.get('aborted_after_second'):
+        res.disagreements.append({'case': case, 'why': 'name of the new invocation', 'model': ob['expect_dir'], 'impl': ob.get('builddirs')})
     if ob.get('aborted_after_second'):
         # the second invocation was not refused and ran steps of its own: only the rounds up to that point and the second
         # invocation itself have a verdict
@@ -132,8 +197,9 @@ def judge(ctx, drv, res, case, ob, want_account):
         if final['eff'][2] == '1':
             mh.append(('end', '0'))
         ih = [tuple(h[0:2]) for h in hooks]
-        if skip_end:
-            # when the loop runs out of schedule lines the exit trap's end hook may come before the hooks of steps still running
+        if skip_end or case.get('free'):
+            # when the loop runs out of schedule lines the exit trap's end hook may come before the hooks of steps still running;
+            # in a free-running invocation the hooks of two parallel steps need not come in the order of their probes' end lines
             mh, ih = sorted(mh), sorted(ih)
         if want_account and mh != ih:
             res.disagreements.append({'case': case, 'why': 'hook calls', 'model': mh, 'impl': ih})
@@ -144,7 +210,7 @@ def judge(ctx, drv, res, case, ob, want_account):
             res.count('parallel-failure-exit: end reached with a failed parallel step')
             if not case['detached'] and (ob['rc'] != 0 or (want_account and not ob.get('report'))):
                 res.disagreements.append({'case': case, 'why': 'parallel-only failure: the model says exit 0 and a report', 'impl': [ob['rc'], ob.get('report')]})
-    if bad and bad['model_starts'][:len(bad['impl_starts'])] == bad['impl_starts']:
+    if bad and bad['model_starts'][:len(bad['impl_starts'])] == bad['impl_starts'] and not case.get('free'):
         # canvas had started only a prefix of what the model starts when the (already repeated) wait ran out, and the
         # harness stopped driving the invocation there: what it left behind is a half-driven run, not a finished one.
         # The disagreement above stands (a hang of the real loop ends as "no failing input found"); the oracles are for
@@ -218,6 +284,24 @@ def judge_account(ctx, drv, res, case, ob, st, rows, irows, hooks, tr, skip_end)
                                                     'file no longer named the invocation (exit trap already run); hooks in order %s' % hooks})
             else:
                 samples += ob['felloff_lock_samples']
+    long_names = {s['name'] for s in case['steps'] if len(s['name'].replace('/', '-')) + 8 > 255}
+    if long_names:
+        # 'NNN-<name>.log' is longer than NAME_MAX: pinned by the case (the name) and the observation (the step ran, its record names
+        # that log, the file does not exist).  The rest of the accounting is judged with that one clause taken out.
+        lost = [r for r in rows if r['name'] in long_names and r['name'] in executed and not logs.get(r['step'])]
+        if lost:
+            res.oracle_failures.append({'case': case, 'signature': SIG_LOG_NAME_MAX,
+                                        'what': 'step %s (name of %d bytes) ran and is recorded with exit %s, its log name has %d bytes: the file cannot be created, '
+                                                'the output of the step is in no log' % (lost[0]['step'], len(lost[0]['name']), lost[0]['exit'], len(lost[0].get('log', '')))})
+            logs = dict(logs)
+            for r in lost:
+                logs[r['step']] = True
+    if ob.get('hook_args_wrong'):
+        res.oracle_failures.append({'case': case, 'signature': 'hook-arguments-not-as-configured',
+                                    'what': 'a hook call carried %s' % ob['hook_args_wrong']})
+    if ob.get('odd_log_names'):
+        res.oracle_failures.append({'case': case, 'signature': 'log-name-not-of-the-step',
+                                    'what': 'a record of a fresh invocation names a log that is not NNN-<step name>.log: %s' % ob['odd_log_names'][:3]})
     if not samples:
         # no round had a step of this invocation waiting at its gate (everything skipped): the clause "the lock file named the
         # invocation while it ran" gets no verdict; the rest of the oracle does
@@ -321,21 +405,31 @@ def lane_robsd_wait(ctx, res):
         res.count('robsd-wait of /repo is the non-OpenBSD stub (returns at once): the stand-in carries the barrier')
 
 
-def load_corpus(pid):
+def load_corpus(pid, pending=None):
+    """corpus files carrying a "pending" key (the signature they produce) are skipped unless the parked classes are switched on
+    (orch_e2e.PENDING_FINDINGS / c11.PENDING_FINDINGS, VERIF_PENDING=1)"""
+    pending = orch_e2e.PENDING_FINDINGS if pending is None else pending
     d = os.path.join(common.VERIF, 'corpus', pid)
     if not os.path.isdir(d):
         raise common.BuildFailure('corpus directory %s is missing' % d)
     files = sorted(glob.glob(os.path.join(d, '*.json')))
     if not files:
         raise common.BuildFailure('corpus directory %s is empty' % d)
-    return [json.load(open(p)) for p in files]
+    return [c for c in (json.load(open(p)) for p in files) if pending or not c.get('pending')]
 
 
 RULE = ('canvas configurations of 2-7 gated probe steps (synchronous/parallel, exit codes 0/1/2/124/255 and deaths by SIGSEGV/SIGKILL/SIGABRT, skip sets '
         'incl. end), ncpu 1-3, a generated completion order, foreground and detached, optionally a second invocation started meanwhile (fresh / resume of '
         'a prefix-named older directory / background resume of an older finished directory / resume of the running directory); after every completion '
         'the model predicts the next starts; non-trivial = at least one parallel and one synchronous non-skipped step; distinct by configuration+order; '
-        'plus the lanes skip-on-resume (-s on a resume at step >= 2), hook-stdin (a hook that reads its input) and robsd-wait (the stub is run)')
+        'plus the lanes skip-on-resume (-s on a resume at step >= 2), hook-stdin (a hook that reads its input) and robsd-wait (the stub is run); '
+        'boundary classes (orch_e2e.gen_boundary, a share of the generated cases and one corpus case b04_* / b11_* each; printed as "class: ..."): 1 and '
+        '15-17 / 31-33 / 63-65 steps (free-running: every gate open, one round with the recorded completion order), runs of 0 / 1 / ncpu-1 / ncpu / ncpu+1 / '
+        '2*ncpu / 16 / 17 parallel steps with ncpu 1-3 (gated, also at the very end), failing step first / second / 16th / 17th / last but one / last, '
+        'skip first / last / all but one / steps 15-17, exit codes 126 / 127 / 255 and plain exits 129 / 143 / 159, deaths by SIGTERM / SIGHUP, names that '
+        'are prefixes of each other / differ in case / hold - . / = / are 64 - 247 bytes long, names with a blank, a comma, or longer than 247 bytes and '
+        'skip names that are words of other names (known deviations, each under its own signature), hook commands of 16-18 words and arguments of 1 / 4 KiB, '
+        '9 - 100 earlier invocations of the day, resume of DATE.1 / .9 / .10 / .99 while DATE.10 / .11 / .100 runs, a root spelled with a trailing slash')
 
 
 def run(ctx, n=None):
@@ -343,7 +437,7 @@ def run(ctx, n=None):
     res.rule = RULE
     n = n or ctx.budget(150, 2500)
     corpus = load_corpus(PID)
-    cases = [c for c in corpus if 'steps' in c] + [orch_e2e.gen_case(ctx.rng) for _ in range(n)]
+    cases = [orch_e2e.expand(c) for c in corpus if 'steps' in c or 'compact' in c] + [orch_e2e.gen_case(ctx.rng, ctx.budget(orch_e2e.BOUNDARY_QUICK, orch_e2e.BOUNDARY_THOROUGH)) for _ in range(n)]
     res.samples = cases[:2]
     evaluate(ctx, cases, res, False)
     lane_skip_on_resume(ctx, res, [c for c in corpus if c.get('lane') == 'skip-on-resume'] + [gen_skip_resume(ctx.rng) for _ in range(ctx.budget(3, 40))])
